@@ -1,6 +1,7 @@
 import Mdns.Driver.Sim
 import Mdns.Driver.MonClient
 import Mdns.Driver.MonShutdown
+import Mdns.Driver.C15
 /-
   Dispatch of the history monitors by property tag (`sim <TAG> …` / `sim2 <TAG> …`).
 -/
@@ -33,6 +34,7 @@ def monitorTag (prop : String) (script : List Cmd) (obs : List Obs) : Option Str
     | "C05" => MonClient.monitorC05 script iters 0
     | "C17" => (MonClient.monitorC17 script iters 0) <|> refineD24 iters (Sim.monitorC13 script iters)
     | "C14" => MonShutdown.monitorBurst script iters 1
+    | "C15" => C15.monitorCrash script obs
     | "C20" => (MonClient.monitorC20 script iters 0) <|> (MonClient.monitorC20Unrequested script iters 0)
     | _ => none
 
